@@ -81,6 +81,8 @@ def invoke(world, rec):
             kw = _ikw(a, lganm_interventions)
             if a.get("population"):
                 kw["population"] = True
+            if "n" not in a:
+                return m.sample(random_state=seed, **kw)        # the default sample size
             return m.sample(a["n"], random_state=seed, **kw)
         return f
     if api == "nd.sample":
